@@ -845,3 +845,8 @@ def fingers_spec(f):
     (those met, going from the last string backwards, before any open string) share one finger"""
     return sum([1 if x != 0 else 0 for x in f]) - (barre_run(f[::-1], min_pressed(f)) - 1
                                                    if barre_run(f[::-1], min_pressed(f)) > 1 else 0)
+
+
+def uniq_by_pitch(ns):
+    """the notes of ns without the ones whose pitch occurred earlier, in order"""
+    return [] if len(ns) == 0 else [ns[0]] + uniq_by_pitch([n for n in ns[1:] if pitch(n) != pitch(ns[0])])
